@@ -181,6 +181,13 @@ def run(ctx):
         n += from_posit_rule(ctx, prog, q, se)
     import rules_routing
     n += rules_routing.quire_round_trip(ctx, prog)
+    # the residual split subtracts single posits (`q -= p1`): that spelling applied to the cleared quire must leave exactly -p for every p
+    # (QPLACE, shared with C04; here only the `-= p` / `+= p` spellings the split and From<P> rely on)
+    import rules_rounding
+    from quire_common import placement_tasks
+    st_ = rules_rounding.run_parallel(ctx, prog, placement_tasks(prog, ctx.tier, only_kinds={('one', True), ('one', False)}), prefix='placement_')
+    ctx.count('placement_cells_total', st_['cells'])
+    ctx.count('placement_cells_proved_total', st_['proved'])
     ctx.require('C12 rule instances', n, 500)
     ctx.undecided['general'] = 'exactness of the `-=` inside the residual split (C04 arithmetic); Q32E2::from(p).to_posit() == p (iterator-based limb code)'
     return LEVEL, ('Bit-image round trip, clear, neg (all limb patterns, incl. the 512-bit Q32E2), the to_posit/-= alternation of the residual split and the '
